@@ -316,6 +316,14 @@ pub fn c07(a: &Args, rep: &mut Report) {
         }
         rep.count("inputs_with_all_masks_enumerated", 1);
     });
+    medium_cases(a, rep, "C07", |c, rep| one_c07("C07", c, rep));
+    // large inputs (index values beyond 2^16 / 2^17 / 2^18, several blocks of any blocked loop) under a seeded mask
+    crate::props::large_cases(a, rep, "C07", &[20000, 70000], &[20000, 70000, 140000, 270000], |c, rep| {
+        let mut c = c.clone();
+        let mut r = Rng::stream("C07largemask", &[c.hash()]);
+        c.mask = Some(gen_mask(c.n(), &mut r));
+        one_c07("C07", &c, rep)
+    });
 }
 
 // ------------------------------------------------------------------------------------------------
@@ -458,7 +466,8 @@ pub fn c12(a: &Args, rep: &mut Report) {
         }
         rep.count("inputs_with_all_masks_enumerated", 1);
     });
-    large_cases(a, rep, "C12", &[20000, 60000, 60000], &[20000, 60000, 250000, 250000], |c, rep| {
+    medium_cases(a, rep, "C12", |c, rep| one_c12("C12", c, rep));
+    large_cases(a, rep, "C12", &[20000, 70000, 70000], &[20000, 70000, 140000, 270000], |c, rep| {
         let mut c = c.clone();
         if c.n() % 2 == 0 {
             let mut r = Rng::stream("C12largemask", &[c.hash()]);
@@ -519,6 +528,53 @@ pub fn one_c13(prop: &str, c: &Case, rep: &mut Report) {
             }
         }
         rep.violations.push(Violation::new(prop, "c13.routes_differ", format!("Voronoi::from(&integrator) is not bitwise the direct build: {what}"), Some(c), json!({"digest_integrator": d1.hex(), "digest_direct": d2.hex()})));
+    }
+    // the public conversion primitive itself: `build_voronoi_cells` into caller-owned, empty face vectors gives the cells
+    // and - concatenated in cell order - the faces of the tessellation, bitwise; a second call into the same vectors appends
+    // the same faces again and leaves those of the first call untouched
+    {
+        let fb = |f: &meshless_voronoi::VoronoiFace| {
+            let mut d = vcore::digest::Digest::new();
+            d.usize(f.left());
+            d.opt_usize(f.right());
+            d.opt_v3(f.shift());
+            d.f64(f.area());
+            d.v3(f.centroid());
+            d.v3(f.normal());
+            d.0
+        };
+        let r = guarded(|| {
+            let mut lists: Vec<Vec<meshless_voronoi::VoronoiFace>> = (0..n).map(|_| vec![]).collect();
+            let cells1 = vi.build_voronoi_cells(&mut lists);
+            let once: Vec<Vec<u64>> = lists.iter().map(|l| l.iter().map(fb).collect()).collect();
+            let cells2 = vi.build_voronoi_cells(&mut lists);
+            let twice: Vec<Vec<u64>> = lists.iter().map(|l| l.iter().map(fb).collect()).collect();
+            (cells1, once, cells2, twice)
+        });
+        match r {
+            Err(p) => rep.violations.push(panic_violation(prop, c, &p)),
+            Ok((cells1, once, cells2, twice)) => {
+                rep.count("build_voronoi_cells_calls_compared", 2);
+                let cb = |x: &meshless_voronoi::VoronoiCell| (x.loc().to_array().map(f64::to_bits), x.centroid().to_array().map(f64::to_bits), x.volume().to_bits(), x.safety_radius().to_bits());
+                let cells_ok = cells1.len() == via.cells().len() && cells2.len() == via.cells().len() && (0..cells1.len()).all(|i| cb(&cells1[i]) == cb(&via.cells()[i]) && cb(&cells2[i]) == cb(&via.cells()[i]));
+                if !cells_ok {
+                    rep.violations.push(Violation::new(prop, "c13.build_voronoi_cells_cells", "the cells returned by build_voronoi_cells (first or second call) are not bitwise the cells of Voronoi::from(&integrator)".to_string(), Some(c), json!({})));
+                }
+                let flat: Vec<u64> = once.iter().flatten().copied().collect();
+                let want: Vec<u64> = via.faces().iter().map(fb).collect();
+                if flat != want {
+                    rep.violations.push(Violation::new(prop, "c13.build_voronoi_cells_faces", format!("the faces appended by build_voronoi_cells ({} in cell order) are not bitwise the face list of Voronoi::from(&integrator) ({})", flat.len(), want.len()), Some(c), json!({})));
+                }
+                for i in 0..n {
+                    let k = once[i].len();
+                    if twice[i].len() != 2 * k || twice[i][..k] != once[i][..] || twice[i][k..] != once[i][..] {
+                        let kept = twice[i].len() >= k && twice[i][..k] == once[i][..];
+                        rep.violations.push(Violation::new(prop, "c13.build_voronoi_cells_second_call", format!("cell {i}: after a second build_voronoi_cells into the same vectors the list holds {} faces (first call: {k}); faces of the first call untouched: {kept}; appended faces equal to the first ones: {}", twice[i].len(), twice[i].len() == 2 * k && twice[i][k..] == once[i][..]), Some(c), json!({"cell": i})));
+                        break;
+                    }
+                }
+            }
+        }
     }
     // cell integrals = stored values of the constructed cells in index order
     let active: Vec<usize> = (0..n).filter(|&i| is_active(c, i)).collect();
@@ -617,7 +673,8 @@ pub fn c13(a: &Args, rep: &mut Report) {
         with_random_mask("C13mask", a, k, &mut c, 2);
         one_c13("C13", &c, rep);
     });
-    large_cases(a, rep, "C13", &[20000, 40000], &[20000, 60000, 150000], |c, rep| {
+    medium_cases(a, rep, "C13", |c, rep| one_c13("C13", c, rep));
+    large_cases(a, rep, "C13", &[20000, 70000], &[20000, 70000, 150000], |c, rep| {
         let mut c = c.clone();
         if c.n() % 2 == 0 {
             let mut r = Rng::stream("C13largemask", &[c.hash()]);
